@@ -14,12 +14,14 @@ from instr import core, diskcache
 ID = 'C02'
 COQ_PROP = 'C02'
 LEVEL = 'proof'
-TRANSLATE = ['disk']
+TRANSLATE = ['disk', 'sql']     # sql: every lookup / removal statement filters on key = ? AND raw = ? (bystander monitor)
 TRUSTED = [
     'coq/base/Val.v: SQLite storage-class order and exact int/real comparison, CPython binding; compared with the UNIQUE(key, raw) index of a real database on every enumerated pair',
     'codec hypothesis: pickletools.optimize(pickle.dumps(k, protocol)) is injective on keys (premise pkk_inj) and pickle.load inverts it; multi-element hash-ordered containers are outside it (C13 finding)',
 ]
-ASSUMPTIONS = ['NaN, unencodable text and streams are outside the key domain']
+ASSUMPTIONS = ['NaN, unencodable text and streams are outside the key domain',
+               'bystander monitor: virtual clock (instr.Clock), entries stored at t=1000, operations at t=1050; the raw table is read through a '
+               'separate sqlite3 connection (columns store_time, expire_time, tag, size, mode, filename, value; access statistics excluded)']
 
 
 def alphabet(protocol):
@@ -172,6 +174,306 @@ def correspondence(ctx, res, coqcases, limit):
         res.sample({'a': short(a), 'b': short(b), 'one_entry': one, 'rows(key,raw)': short(rows), 'model_check': checks[0][:300]})
 
 
+# ---------------------------------------------------------------------------------------------------------------
+# An operation addressed to key k never returns, changes or removes an entry stored under a DIFFERENT key -- also when
+# the other entries carry an expiry in the future, an expiry in the past (still in the table) and tags.
+
+T_STORE, T_OP = 1000.0, 1050.0          # bystanders and k are stored at T_STORE, the operation runs at T_OP
+DEFAULT = 'DEFAULT-RESULT'
+ROLES = [('future', 100.0, 'tagF'), ('past', 10.0, 'tagP'), ('plain', None, None)]
+KSTATES = {'missing': None, 'live': (None, None), 'future': (500.0, 'tagK'), 'expired': (10.0, 'tagE')}
+CACHE_OPS = ['get', 'get_meta', 'contains', 'getitem', 'delitem', 'delete', 'pop', 'pop_meta', 'touch', 'incr', 'add', 'set']
+INDEX_OPS = ['ix_getitem', 'ix_contains', 'ix_get', 'ix_delitem', 'ix_pop', 'ix_pop_nodefault', 'ix_setdefault', 'ix_setitem']
+BY_CONFIGS = [   # (container, shards, disk, cull_limit)
+    ('Cache', 0, 'Disk', 0), ('Cache', 0, 'Disk', 10), ('FanoutCache', 1, 'Disk', 0), ('FanoutCache', 2, 'Disk', 10),
+    ('Index', 0, 'Disk', 0), ('Cache', 0, 'JSONDisk', 0),
+]
+
+
+class ByEnv:
+    """one container + raw read-only views of its table(s) + the virtual clock"""
+
+    def __init__(self, directory, container, shards, diskname, cull_limit, protocol, clock):
+        self.directory, self.container, self.clock = directory, container, clock
+        kw = dict(disk=getattr(diskcache, diskname), disk_pickle_protocol=protocol, eviction_policy='none', cull_limit=cull_limit)
+        if container == 'FanoutCache':
+            self.obj = diskcache.FanoutCache(directory, shards=shards, **kw)
+        elif container == 'Index':
+            self.obj = diskcache.Index.fromcache(diskcache.Cache(directory, **kw))
+        else:
+            self.obj = diskcache.Cache(directory, **kw)
+        self.cache = self.obj.cache if container == 'Index' else self.obj     # where set(expire=, tag=) lives
+        self.cons = []
+        for root, _dirs, files in os.walk(directory):
+            if 'cache.db' in files:
+                self.cons.append(sqlite3.connect(os.path.join(root, 'cache.db'), isolation_level=None))
+
+    def rows(self):
+        out = {}
+        for i, con in enumerate(self.cons):
+            for r in con.execute('SELECT key, raw, store_time, expire_time, tag, size, mode, filename, value FROM Cache'):
+                k = bytes(r[0]) if isinstance(r[0], (bytes, memoryview)) else r[0]
+                v = bytes(r[8]) if isinstance(r[8], (bytes, memoryview)) else r[8]
+                out[(i, type(k).__name__, k, r[1])] = r[2:8] + (v,)
+        return out
+
+    def put(self, key, value, expire, tag):
+        self.clock.set(T_STORE)
+        self.cache.set(key, value, expire=expire, tag=tag, retry=True)
+
+    def close(self):
+        for con in self.cons:
+            con.close()
+        self.cache.close()
+
+
+def by_values(op, n):
+    """distinct values; ints where the operation is arithmetic"""
+    if op == 'incr':
+        return 1000, 2000, [7000 + 100 * i for i in range(n)]
+    return 'value-of-k', 'second-value-of-k', ['value-of-bystander-%d' % i for i in range(n)]
+
+
+def by_apply(env, op, k, v2):
+    o = env.obj
+    if op == 'get':
+        return o.get(k, DEFAULT)
+    if op == 'get_meta':
+        return o.get(k, DEFAULT, expire_time=True, tag=True)
+    if op in ('contains', 'ix_contains'):
+        return k in o
+    if op in ('getitem', 'ix_getitem'):
+        return o[k]
+    if op in ('delitem', 'ix_delitem'):
+        del o[k]
+        return None
+    if op == 'delete':
+        return o.delete(k)
+    if op == 'pop':
+        return o.pop(k, DEFAULT)
+    if op == 'pop_meta':
+        return o.pop(k, DEFAULT, expire_time=True, tag=True)
+    if op == 'touch':
+        return o.touch(k, expire=200.0)
+    if op == 'incr':
+        return o.incr(k, 5, default=100)
+    if op == 'add':
+        return o.add(k, v2)
+    if op == 'set':
+        return o.set(k, v2)
+    if op == 'ix_get':
+        return o.get(k, DEFAULT)
+    if op == 'ix_pop':
+        return o.pop(k, DEFAULT)
+    if op == 'ix_pop_nodefault':
+        return o.pop(k)
+    if op == 'ix_setdefault':
+        return o.setdefault(k, v2)
+    if op == 'ix_setitem':
+        o[k] = v2
+        return None
+    raise ValueError(op)
+
+
+def by_expected(op, vk, v2, kmeta):
+    """(outcome when k has a visible entry, outcome when it has none, get(k) afterwards for both)"""
+    R, X = (lambda x: ('ret', x)), ('exc', 'KeyError')
+    ket, ktag = kmeta
+    table = {
+        'get': (R(vk), R(DEFAULT), vk, DEFAULT), 'ix_get': (R(vk), R(DEFAULT), vk, DEFAULT),
+        'get_meta': (R((vk, ket, ktag)), R((DEFAULT, None, None)), vk, DEFAULT),
+        'contains': (R(True), R(False), vk, DEFAULT), 'ix_contains': (R(True), R(False), vk, DEFAULT),
+        'getitem': (R(vk), X, vk, DEFAULT), 'ix_getitem': (R(vk), X, vk, DEFAULT),
+        'delitem': (R(None), X, DEFAULT, DEFAULT), 'ix_delitem': (R(None), X, DEFAULT, DEFAULT),
+        'delete': (R(True), R(False), DEFAULT, DEFAULT),
+        'pop': (R(vk), R(DEFAULT), DEFAULT, DEFAULT), 'ix_pop': (R(vk), R(DEFAULT), DEFAULT, DEFAULT),
+        'ix_pop_nodefault': (R(vk), X, DEFAULT, DEFAULT),
+        'pop_meta': (R((vk, ket, ktag)), R((DEFAULT, None, None)), DEFAULT, DEFAULT),
+        'touch': (R(True), R(False), vk, DEFAULT),
+        'add': (R(False), R(True), vk, v2), 'set': (R(True), R(True), v2, v2),
+        'ix_setdefault': (R(vk), R(v2), vk, v2), 'ix_setitem': (R(None), R(None), v2, v2),
+    }
+    if op == 'incr':
+        return (R(vk + 5), R(105), vk + 5, 105)
+    return table[op]
+
+
+def mentions(x, foreign):
+    if isinstance(x, (tuple, list)):
+        return any(mentions(y, foreign) for y in x)
+    return any(type(x) is type(f) and x == f for f in foreign)
+
+
+def by_check(env, spec, before, outcome, k, bystanders, vk, v2, bvals):
+    """Judge one operation.  before: raw rows of the bystanders (k's own row excluded)."""
+    op, kstate = spec['op'], spec['kstate']
+    problems = []
+    exp, tag = KSTATES[kstate] or (None, None)
+    kmeta = (None if exp is None else T_STORE + exp, tag)
+    hit, miss, after_hit, after_miss = by_expected(op, vk, v2, kmeta)
+    allowed = {'missing': [miss], 'live': [hit], 'future': [hit], 'expired': [miss, hit]}[kstate]
+    foreign = list(bvals) + ([b + 5 for b in bvals] if op == 'incr' else [])
+    what = '%s on key %s (%s entry) beside entries %s' % (op, short(k), kstate, ', '.join('%s:%s' % (short(b), r[0]) for b, r in zip(bystanders, ROLES)))
+    if outcome not in allowed:
+        if outcome[0] == 'ret' and mentions(outcome[1], foreign):
+            problems.append(('foreign_entry_returned:%s' % op, '%s returned %s, the entry of another key' % (what, short(outcome[1]))))
+        elif outcome[0] == 'exc':
+            problems.append(('op_raised:%s:%s' % (op, outcome[1]), '%s raised %s; expected %s' % (what, outcome[1:], short(allowed))))
+        else:
+            problems.append(('wrong_result:%s' % op, '%s returned %s; expected %s' % (what, short(outcome[1]), short(allowed))))
+    now = env.rows()
+    cull = env.cache.cull_limit
+    for rk, row in before.items():
+        if rk not in now:
+            past = row[1] is not None and row[1] <= T_OP
+            if past and cull:
+                continue        # lazy culling may drop an entry whose expiry has passed; nothing else may
+            problems.append(('foreign_entry_removed:%s' % op, '%s removed the entry with database key %s (expire_time %r)' % (what, short(rk[2]), row[1])))
+        elif now[rk] != row:
+            problems.append(('foreign_entry_changed:%s' % op, '%s changed the entry with database key %s: %s -> %s' % (what, short(rk[2]), short(row), short(now[rk]))))
+    if len([rk for rk in now if rk not in before]) > 1:
+        problems.append(('unexpected_entry:%s' % op, '%s left more than one entry that is neither a bystander nor its own' % what))
+    # through the interface: the visible bystanders still answer with their own value, expiry and tag; the expired one with nothing
+    for b, bv, (role, bexp, btag) in zip(bystanders, bvals, ROLES):
+        want = (DEFAULT, None, None) if role == 'past' else (bv, None if bexp is None else T_STORE + bexp, btag)
+        try:
+            got = env.cache.get(b, DEFAULT, expire_time=True, tag=True)
+        except Exception as e:  # noqa
+            got = ('<raised>', type(e).__name__)
+        if got != want:
+            problems.append(('foreign_entry_changed:%s' % op, 'after %s, get(%s) of the %s bystander gives %s, stored %s' % (what, short(b), role, short(got), short(want))))
+    try:
+        own = env.cache.get(k, DEFAULT)
+    except Exception as e:  # noqa
+        own = ('<raised>', type(e).__name__)
+    own_ok = {'missing': [after_miss], 'live': [after_hit], 'future': [after_hit], 'expired': [after_miss, after_hit]}[kstate]
+    if own not in own_ok:
+        if mentions(own, foreign):
+            problems.append(('foreign_entry_returned:%s' % op, 'after %s, get(k) gives %s, the entry of another key' % (what, short(own))))
+        else:
+            problems.append(('own_entry_after:%s' % op, 'after %s, get(k) gives %s; expected %s' % (what, short(own), short(own_ok))))
+    return problems
+
+
+def by_place_k(env, k, kstate, vk):
+    """bring k's own entry into `kstate` (bystanders untouched: every store runs at T_STORE, before any expiry)"""
+    if kstate == 'missing':
+        env.clock.set(T_STORE)
+        if env.cache.get(k, DEFAULT) != DEFAULT:
+            env.cache.delete(k, retry=True)
+        return
+    exp, tag = KSTATES[kstate]
+    env.put(k, vk, exp, tag)
+
+
+def by_scenario(env, spec, k, bystanders, fresh):
+    """Run one scenario; fresh=True rebuilds everything from an empty container."""
+    op, kstate = spec['op'], spec['kstate']
+    vk, v2, bvals = by_values(op, len(bystanders))
+    if fresh:
+        env.clock.set(T_STORE)
+        env.cache.clear(retry=True)
+    rows = env.rows() if not fresh else {}
+    if fresh or env.by_vals != bvals or len(rows) < len(bystanders):
+        if not fresh:
+            env.clock.set(T_STORE)
+            env.cache.clear(retry=True)
+        for b, bv, (role, bexp, btag) in zip(bystanders, bvals, ROLES):
+            env.put(b, bv, bexp, btag)
+        env.by_vals = bvals
+        env.by_rows = env.rows()
+        if len(env.by_rows) != len(bystanders):
+            return [('bystanders_merged', 'storing %d distinct keys %s gave %d entries' % (len(bystanders), short(bystanders), len(env.by_rows)))]
+    by_place_k(env, k, kstate, vk)
+    before = {rk: r for rk, r in env.rows().items() if rk in env.by_rows}
+    if before != env.by_rows:
+        return [('foreign_entry_changed:setup', 'storing key %s changed or removed entries of %s' % (short(k), short(bystanders)))]
+    env.clock.set(T_OP)
+    try:
+        outcome = ('ret', by_apply(env, op, k, v2))
+    except Exception as e:  # noqa
+        outcome = ('exc', type(e).__name__) if isinstance(e, KeyError) else ('exc', type(e).__name__, str(e)[:80])
+    if outcome[0] == 'ret' and isinstance(outcome[1], list):
+        outcome = ('ret', tuple(outcome[1]))
+    problems = by_check(env, spec, before, outcome, k, bystanders, vk, v2, bvals)
+    # an expired bystander that lazy culling legitimately dropped is put back for the next scenario
+    left = env.rows()
+    if any(rk not in left for rk in env.by_rows):
+        env.by_vals = None
+    return problems
+
+
+def by_keys(diskname, protocol):
+    keys = alphabet(protocol)
+    if diskname == 'JSONDisk':
+        keys = [k for k in keys if not isinstance(k, (bytes, tuple, frozenset))] + [[1], [1.0], ['a'], 1e16, 10 ** 16]
+    return keys
+
+
+def pick_bystanders(keys, k, j):
+    """three pairwise distinct keys, all distinct from k under the documented rule, rotating with j"""
+    cands = [b for b in keys if not expected_same(k, b) and not (isinstance(b, list))]
+    out = []
+    i = j
+    while len(out) < len(ROLES) and i < j + 2 * len(cands):
+        b = cands[i % len(cands)]
+        i += 1
+        if not any(expected_same(b, c) or json_same(b, c) for c in out) and not json_same(b, k):
+            out.append(b)
+    return out
+
+
+def json_same(a, b):
+    """keys the JSONDisk finding C02-F1 is about (numerically equal int/float) are not used as bystanders of one another"""
+    num = lambda x: isinstance(x, (int, float)) and not isinstance(x, bool)
+    return num(a) and num(b) and a == b
+
+
+def run_bystanders(ctx, res, thorough, stats):
+    st = stats.setdefault('bystander_scenarios', 0)
+    clock = instr.Clock(T_STORE)
+    with instr.Installed(clock):
+        for ci, (container, shards, diskname, cull_limit) in enumerate(BY_CONFIGS):
+            if diskname == 'JSONDisk' or (not thorough and container != 'Cache'):
+                protos = [pickle.HIGHEST_PROTOCOL]
+            else:
+                protos = list(range(0, pickle.HIGHEST_PROTOCOL + 1)) if (thorough and ci == 0) else [0, pickle.HIGHEST_PROTOCOL]
+            for protocol in protos:
+                keys = by_keys(diskname, protocol)
+                env = ByEnv(ctx.scratch('c02by'), container, shards, diskname, cull_limit, protocol, clock)
+                env.by_vals = None
+                ops = INDEX_OPS if container == 'Index' else [o for o in CACHE_OPS if not (o == 'incr' and diskname == 'JSONDisk')]
+                try:
+                    for ki, k in enumerate(keys):
+                        if isinstance(k, list):
+                            continue
+                        ncand = len(keys) - 1
+                        j0 = (ki * 7 + ctx.seed * 13 + ci * 3 + protocol) % ncand
+                        js = range(j0 % 3, ncand, 3) if thorough else [j0, (j0 + ncand // 2) % ncand]
+                        for j in js:
+                            bystanders = pick_bystanders(keys, k, j)
+                            if len(bystanders) < len(ROLES):
+                                continue
+                            env.by_vals = None
+                            for kstate in ('missing', 'live', 'future', 'expired'):
+                                for op in ops:
+                                    spec = {'check': 'bystanders', 'container': container, 'shards': shards, 'disk': diskname, 'cull_limit': cull_limit,
+                                            'protocol': protocol, 'op': op, 'kstate': kstate, 'k': short(k), 'bystanders': [short(b) for b in bystanders],
+                                            'k_pickle_hex': pickle.dumps(k, protocol=4).hex(),
+                                            'bystanders_pickle_hex': [pickle.dumps(b, protocol=4).hex() for b in bystanders]}
+                                    problems = by_scenario(env, spec, k, bystanders, fresh=False)
+                                    if problems:
+                                        again = by_scenario(env, spec, k, bystanders, fresh=True)
+                                        problems = again or problems
+                                        env.by_vals = None
+                                    stats['bystander_scenarios'] += 1
+                                    res.count(['by', container, shards, diskname, cull_limit, protocol, op, kstate, short(k), [short(b) for b in bystanders]], nontrivial=True)
+                                    for sig, desc in problems:
+                                        res.violations.append(fw.Violation(sig, desc, spec))
+                finally:
+                    env.close()
+
+
 def witnesses(res):
     import tempfile, shutil
     d = tempfile.mkdtemp(prefix='c02wit-')
@@ -190,7 +492,13 @@ def run(ctx, big=False):
     res.rule = ('ordered pairs over an alphabet of ~50 keys (str, bytes incl. bytes equal to other keys\' serialised forms, ints inside/outside int64 '
                 'incl. boundaries, floats incl. -0.0/inf/subnormal/2**53/2**63, bool, None, tuples, frozenset): store both, observe len, membership, '
                 'get, list(cache), iterkeys against the documented equality rule; model put/db_same/get compared with the rows of the real table. '
-                'quick: all numeric x numeric pairs + a seeded sample; thorough: all pairs x all pickle protocols + JSONDisk.')
+                'quick: all numeric x numeric pairs + a seeded sample; thorough: all pairs x all pickle protocols + JSONDisk.  '
+                'Bystanders: every key k of the alphabet x own entry {missing, live, live with future expiry and tag, expired} x operation '
+                '{get, get with expire_time/tag, in, [], del, delete, pop, pop with expire_time/tag, touch, incr, add, set; Index [], in, get, del, pop, '
+                'setdefault, []=} on Cache / FanoutCache (1 and 2 shards) / Index / JSONDisk, with cull_limit 0 and 10, beside three entries under '
+                'other keys (rotating through the alphabet): one expiring in the future with a tag, one whose expiry has passed, one plain.  The result '
+                'is the one of k alone (never the value of another key), the raw rows of the other entries are unchanged (an expired one may be '
+                'culled when cull_limit > 0), and the other keys still answer with their own value, expire_time and tag.')
     stats = {'pairs': 0, 'same': 0}
     coqcases = []
     thorough = (not ctx.quick) or big
@@ -200,7 +508,11 @@ def run(ctx, big=False):
     run_pairs(ctx, res, pickle.HIGHEST_PROTOCOL, diskcache.JSONDisk, None if thorough else 500, coqcases, stats)
     if not ctx.search_mode:
         correspondence(ctx, res, coqcases, 1500 if ctx.quick else 6000)
-    res.extra.update({'pairs': stats['pairs'], 'pairs_expected_same': stats['same'], 'exhaustive': thorough})
+    import time as _t
+    t0 = _t.time()
+    run_bystanders(ctx, res, not ctx.quick, stats)
+    res.extra.update({'pairs': stats['pairs'], 'pairs_expected_same': stats['same'], 'exhaustive': thorough,
+                      'bystander_scenarios': stats['bystander_scenarios'], 'bystander_s': round(_t.time() - t0, 1)})
     witnesses(res)
     return res
 
@@ -213,6 +525,21 @@ def replay(payload):
     case = payload.get('case', {})
     import tempfile, shutil
     d = tempfile.mkdtemp(prefix='c02r-')
+    if case.get('check') == 'bystanders':
+        clock = instr.Clock(T_STORE)
+        try:
+            with instr.Installed(clock):
+                env = ByEnv(d, case['container'], case['shards'], case['disk'], case['cull_limit'], case['protocol'], clock)
+                env.by_vals = None
+                k = pickle.loads(bytes.fromhex(case['k_pickle_hex']))
+                bystanders = [pickle.loads(bytes.fromhex(h)) for h in case['bystanders_pickle_hex']]
+                problems = by_scenario(env, case, k, bystanders, fresh=True)
+                env.close()
+            for sig, desc in problems:
+                print(sig, desc)
+            return not problems
+        finally:
+            shutil.rmtree(d, ignore_errors=True)
     try:
         a = pickle.loads(bytes.fromhex(case['a_pickle_hex']))
         b = pickle.loads(bytes.fromhex(case['b_pickle_hex']))
